@@ -190,6 +190,13 @@ class SyncedList(SyncedCollection, MutableSequence):
         """
         data = _convert_numpy(data)
         if _sequence_resolver.get_type(data) == "SEQUENCE":
+            if self._root is not None:
+                # A nested collection must be reset within the backend's
+                # current content, not within a possibly stale copy of it.
+                self._validate(data)
+                with self._load_and_save:
+                    self._update(data, _validate=True)
+                return
             self._update(data)
             with self._thread_lock:
                 self._save()
@@ -243,6 +250,12 @@ class SyncedList(SyncedCollection, MutableSequence):
             self._data.remove(self._from_base(data=value, parent=self))
 
     def clear(self):  # noqa: D102
+        if self._root is not None:
+            # A nested collection must be cleared within the backend's
+            # current content, not within a possibly stale copy of it.
+            with self._load_and_save:
+                self._data = []
+            return
         self._data = []
         with self._thread_lock:
             self._save()
